@@ -100,7 +100,19 @@ fn big_unit(rng: &mut Rng, lo: f32, hi: f32) -> (usize, usize, Vec<[f32; 3]>, Ve
         px.push([rng.f32_in(lo, hi), rng.f32_in(lo, hi), rng.f32_in(lo, hi)]);
     }
     px.extend(head.iter().rev().copied());
+    px.truncate(n);
+    // the very last (and first) pixels are where dropped remainders live: strongly coloured, distinct, never fixed points
+    let ends = [[0.9f32, 0.1, 0.3], [0.15, 0.8, 0.35], [0.3, 0.2, 0.95], [0.7, 0.6, 0.05], [0.05, 0.45, 0.6], [0.55, 0.95, 0.2], [0.4, 0.1, 0.1], [0.85, 0.35, 0.75]];
+    for (k, e) in ends.iter().enumerate() {
+        let v = [lo + (hi - lo) * e[0].min(1.0) * 0.6 + 0.2 * e[1], lo.max(0.0) + e[1] * hi.min(1.0), lo.max(0.0) + e[2] * hi.min(1.0)];
+        px[n - 1 - k] = v;
+        px[k] = [v[2], v[0], v[1]];
+    }
     let mut idx: std::collections::BTreeSet<usize> = crate::util::probe_indices(n, w, rng).into_iter().collect();
+    for k in 0..16.min(n) {
+        idx.insert(k);
+        idx.insert(n - 1 - k);
+    }
     for i in (0..head.len()).step_by(2) {
         idx.insert(i);
         idx.insert(n - 1 - i);
